@@ -979,7 +979,10 @@ def run(ctx):
         o, s = fresh_pair()
         write("obs", o)
         write("sim", s)
-        history.append(("write-both", None))
+        history.append(("write-both", {"obs": cur["obs"], "sim": cur["sim"], "ens": cur["ens"]}))
+
+        def brief(h):      # operations without the values written
+            return [e[:1] if e[0].startswith("write") else e for e in h]
         for step in range(nsteps):
             kind = rng.choice(["call"] * 6 + ["write-obs", "write-sim", "write-both", "scale-obs",
                                               "set-param", "set-param", "same-object", "repeat", "views"])
@@ -993,7 +996,8 @@ def run(ctx):
                     write("obs", o)
                 if kind != "write-obs":
                     write("sim", s)
-                history.append((kind, None))
+                history.append((kind, {w: cur[w] for w in ("obs", "sim", "ens")
+                                       if kind == "write-both" or (w == "obs") == (kind == "write-obs")}))
                 continue
             if kind == "scale-obs":      # the caller's own in-place arithmetic
                 c = rng.choice([0.5, 2.0, 10.0])
@@ -1043,7 +1047,8 @@ def run(ctx):
                 res = call_any(fn, a1, a2, excludenull=excl, **kw)
             history.append((kind, key, excl, style))
             rec = {"call": key, "obs": list(vo), "sim": list(vs), "transform": cur["spec"], "excludenull": excl,
-                   "arguments": form, "style": style, "history": list(history), "impl": res,
+                   "arguments": form, "style": style, "transform_at_construction": spec,
+                   "history": list(history), "impl": res,
                    "input_class": "object history: caller-owned arrays and one transform object reused"}
             done.append((fn, args, rec))
             ctx.count(("session", key, kind, style, len(done) > 1))
@@ -1055,7 +1060,7 @@ def run(ctx):
                     fail(None, f"C04/{key.split('/')[0]}/object-history-not-the-definition",
                          f"{key}(trans={cur['spec']}, excludenull={excl}, {form}, {style}) = {res} at step "
                          f"{len(history)} of a sequence on the same array / transform objects (last steps: "
-                         f"{history[-4:]}); the definition on the values held at that call gives {d[0]!r}"
+                         f"{brief(history[-4:])}); the definition on the values held at that call gives {d[0]!r}"
                          + (f"; the caller's {' and '.join(touched)} array no longer holds what the caller "
                             "wrote: it was modified by a call" if touched else ""),
                          dict(rec, definition=d[0]))
@@ -1072,7 +1077,7 @@ def run(ctx):
             if not same_res(rec["impl"], ref, tol):
                 fail(None, f"C04/{key.split('/')[0]}/object-history-differs-from-fresh-objects",
                      f"{key}(trans={spec_k}, excludenull={excl}) returned {rec['impl']} in a sequence of "
-                     f"operations on the same objects (last steps: {rec['history'][-4:]}), fresh arrays and a "
+                     f"operations on the same objects (last steps: {brief(rec['history'][-4:])}), fresh arrays and a "
                      f"fresh transform holding the same values give {ref}",
                      dict(rec, impl_on_fresh_objects=ref))
                 return
